@@ -212,4 +212,28 @@ theorem crashP_isImg (fs : FS) (mode : CrashMode) : IsImg fs.pj fs.pd (fs.crashP
   | proc => exact isImg_pv _ _
   | power sel wk lose => exact ⟨sel, rfl⟩
 
+/-- unsynced page operations that cannot matter: statistics blob writes -/
+def Inert (pj : List PEff) : Prop := ∀ e ∈ pj, e = PEff.stats
+
+theorem inert_nil : Inert [] := by intro e he; simp at he
+
+theorem isImg_inert (pj : List PEff) (h : Inert pj) (p p' : PImg) (hi : IsImg pj p p') : p' = p := by
+  obtain ⟨sel, rfl⟩ := hi
+  induction pj generalizing sel p with
+  | nil => cases sel <;> rfl
+  | cons e pj ih =>
+    have he : e = PEff.stats := h e (by simp)
+    have hr : Inert pj := fun x hx => h x (by simp [hx])
+    subst he
+    cases sel with
+    | nil => simpa [zipSel, applySel] using ih hr p []
+    | cons s ss =>
+      cases s <;> simpa [zipSel, applySel, applyEff, tornEff] using ih hr p ss
+
+theorem pv_inert (fs : FS) (h : Inert fs.pj) : fs.pv = fs.pd :=
+  isImg_inert fs.pj h fs.pd fs.pv (isImg_pv _ _)
+
+theorem crashP_inert (fs : FS) (h : Inert fs.pj) (mode : CrashMode) : fs.crashP mode = fs.pd :=
+  isImg_inert fs.pj h fs.pd _ (crashP_isImg fs mode)
+
 end Nervus.Crash
